@@ -174,6 +174,22 @@ theorem no_lost_wakeup (s : DState) (hstarted : s.started = true) (hnd : s.reque
       s'.requestDone = true := by
   cases okDo <;> cases okVal <;> simp [drun, dstep, hstarted, hnd, hrs]
 
+/-- **request_side_starts_request** (fact regenerated from the source on every run): `Write`
+    and `CloseWrite` call `ensureRequestMade` as a top-level statement in front of every statement
+    that can return - in particular in front of the context check. The transition system's
+    `started` hypothesis below therefore holds after the first request-side call whatever that
+    call returns (a `Send` on a context that is already over included). -/
+theorem request_side_starts_request : ∀ w ∈ Gen.requestSideStartsRequest, w.2 = 0 := by decide
+
+/-- **first_send_enables_response_side**: from any state in which the request goroutine has not
+    finished, a request-side call followed by the goroutine's run lets a blocked response-side
+    call proceed - no assumption on `started`. -/
+theorem first_send_enables_response_side (s : DState) (hnd : s.requestDone = false) (hrs : s.responseSet = false)
+    (okDo okVal : Bool) :
+    ∃ s', drun s ([.ensureRequestMade, .doReturns okDo] ++ (if okDo then [.validate okVal] else []) ++ [.closeReady, .apiProceed]) = some s' ∧
+      s'.requestDone = true := by
+  cases okDo <;> cases okVal <;> simp [drun, dstep, hnd, hrs]
+
 /-! non-vacuity -/
 example : receiveMany 4 { stored := none, items := [.ok [1], .bad 3, .ok [2], .endOK] } =
     [.msg [1], .fail 3, .fail 3, .fail 3] := by decide
